@@ -188,6 +188,52 @@ Fixpoint run (t : node) (h : list (list N * list N)) : option node :=
   | (k, v) :: h' => match update t k v with Some t' => run t' h' | None => None end
   end.
 
+(* ---- several handles on one trie: SecureTrie.Copy (secure_trie.go: `cpy := *t`), which is what
+   core/state's CopyTrie / StateDB.Copy use, and the struct copy of the embedded Trie it implies.
+   A copy is a second handle on the SAME nodes.  In the model nodes are immutable values and every
+   operation is a pure function from trees to trees, so a handle is just a tree: [MCopy h] appends
+   the tree of handle h as a new handle, [MUpd h k v] replaces the tree of handle h only.  That the
+   Go code (which shares node pointers and key slices between the handles) behaves like this is the
+   persistence obligation checked on the real code by the harness' copy/persistence monitors. *)
+Inductive mop :=
+| MUpd (h : nat) (k v : list N)     (* TryUpdate / TryDelete (empty v) through handle h *)
+| MCopy (h : nat).                  (* a copy of handle h becomes the next handle *)
+
+Fixpoint mrun (hs : list node) (ops : list mop) : option (list node) :=
+  match ops with
+  | [] => Some hs
+  | MUpd h k v :: r =>
+      match nth_error hs h with
+      | Some t => match update t k v with Some t' => mrun (set_nth hs h t') r | None => None end
+      | None => None
+      end
+  | MCopy h :: r =>
+      match nth_error hs h with Some t => mrun (hs ++ [t]) r | None => None end
+  end.
+
+(* the linear history of each handle: what was written through it and, before it was taken, through
+   the handle it was copied from *)
+Fixpoint set_nth_h (hs : list (list (list N * list N))) (i : nat) (x : list (list N * list N)) :=
+  match hs with
+  | [] => []
+  | y :: r => match i with O => x :: r | S i' => y :: set_nth_h r i' x end
+  end.
+
+Fixpoint mhist (hs : list (list (list N * list N))) (ops : list mop) : list (list (list N * list N)) :=
+  match ops with
+  | [] => hs
+  | MUpd h k v :: r =>
+      match nth_error hs h with
+      | Some x => mhist (set_nth_h hs h (x ++ [(k, v)])) r
+      | None => hs
+      end
+  | MCopy h :: r =>
+      match nth_error hs h with Some x => mhist (hs ++ [x]) r | None => hs end
+  end.
+
+Definition addresses (h : nat) (o : mop) : bool :=
+  match o with MUpd h' _ _ => Nat.eqb h h' | MCopy _ => false end.
+
 (* ---- canonical form ---- *)
 Definition is_nil (n : node) : bool := match n with Nil => true | _ => false end.
 Definition is_short (n : node) : bool := match n with Short _ _ => true | _ => false end.
@@ -372,6 +418,32 @@ Fixpoint crun (t : node) (ops : list cop) : bool :=
   | CDump d :: r => node_eqb t d && crun t r
   end.
 
+(* the same with several handles (copies): every observation is checked on the handle it was made on *)
+Definition cstep (t : node) (o : cop) : option node :=
+  match o with
+  | CUpd k v => update t k v
+  | CDel k => update t k []
+  | CCommit => Some t
+  | CGet k v => if keqb (get t k) v then Some t else None
+  | CDump d => if node_eqb t d then Some t else None
+  end.
+
+Inductive mcop :=
+| MOp (h : nat) (o : cop)
+| MCp (h : nat).
+
+Fixpoint mcrun (hs : list node) (ops : list mcop) : bool :=
+  match ops with
+  | [] => true
+  | MOp h o :: r =>
+      match nth_error hs h with
+      | Some t => match cstep t o with Some t' => mcrun (set_nth hs h t') r | None => false end
+      | None => false
+      end
+  | MCp h :: r =>
+      match nth_error hs h with Some t => mcrun (hs ++ [t]) r | None => false end
+  end.
+
 (* Case files carry byte strings packed into primitive 63-bit integers (7 bytes per word,
    big endian, first word = length): Coq parses those an order of magnitude faster than lists
    of N numerals.  [unpack] is the inverse of the harness' pack(). *)
@@ -418,9 +490,21 @@ Definition decode_op (o : rcop) : cop :=
   | RDump d => CDump (undump d)
   end.
 
-(* kinds of cases: a trie history, or an observed DeriveSha key order *)
+Inductive rmcop :=
+| RM (h : nat) (o : rcop)
+| RCp (h : nat).
+
+Definition decode_mop (o : rmcop) : mcop :=
+  match o with
+  | RM h o => MOp h (decode_op o)
+  | RCp h => MCp h
+  end.
+
+(* kinds of cases: a trie history, a history over several handles (copies), or an observed
+   DeriveSha key order *)
 Inductive cbody :=
 | BTrie (ops : list rcop)
+| BMulti (ops : list rmcop)
 | BOrder (n : N) (keys : list int).   (* the keys, each preceded by its length, concatenated and packed *)
 
 Definition frame_keys (ks : list (list N)) : list N :=
@@ -430,6 +514,7 @@ Definition case := (N * cbody)%type.
 Definition case_ok (c : case) : bool :=
   match snd c with
   | BTrie ops => crun Nil (map decode_op ops)
+  | BMulti ops => mcrun [Nil] (map decode_mop ops)
   | BOrder n keys => keqb (frame_keys (map rlp_uint (derive_order n))) (unpack keys)
   end.
 Definition mismatches (cs : list case) : list N :=
